@@ -76,7 +76,7 @@ def write_inputs(rng, fmt, work):
             open(path, "w").write(rm.write_kitti_text(arr["p"], arr["R"]))
             p, R = rm.parse_kitti(open(path).read())
             return path, ShadowTrajectory(R, p, None)
-        open(path, "w").write(rm.write_euroc_text(np.round(arr["t"] * 1e9), arr["p"], gen.quats_of(arr["R"])))
+        open(path, "w").write(rm.write_euroc_text(np.round(arr["t"] * 1e9), arr["p"], gen.quats_of(arr["R"]), header=bool(rng.random() < .7), extra_cols=int([9, 0, 3][rng.integers(3)]), eol=["\n", "\n", "\r\n"][rng.integers(3)]))
         t, p, R, _ = rm.parse_euroc(open(path).read())
         return path, ShadowTrajectory(R, p, t)
 
@@ -118,8 +118,7 @@ def write_transform(rng, work, sim_ok, ext):
         np.save(path, M.astype(np.int64) if whole else M)
         form = "npy(int64)" if whole else form
     elif form == "txt":
-        np.savetxt(path, M, fmt="%d") if whole else np.savetxt(path, M)
-        form = "txt(integers)" if whole else form
+        form = (np.savetxt(path, M, fmt="%d"), "txt(integers)")[1] if whole else "txt/" + gen.save_matrix_text(rng, path, M)
     else:
         q = rm.quat_wxyz_from_rot(R)
         d = {"x": float(t[0]), "y": float(t[1]), "z": float(t[2]), "qw": float(q[0]), "qx": float(q[1]),
